@@ -23,6 +23,9 @@ try:
         subprocess.run(['git', '-C', S + '/repo', 'commit', '-qam', 'working tree'], check=True)
     env = dict(os.environ, VERIF_REPO=S + '/repo', VERIF_BUILD_DIR=S + '/build', VERIF_EVIDENCE_DIR=S + '/evidence', VERIF_REPLAY_DIR=S + '/replay')
     os.makedirs(S + '/evidence')
+    # the machinery itself is used from a snapshot, so that it can be worked on while the regression runs
+    subprocess.run(['rsync', '-a', '--exclude', '.build', '--exclude', '.git', '--exclude', 'replay', V + '/', S + '/verif/'], check=True)
+    VS = S + '/verif'
     for pid, n in items:
         patch = os.path.join(V, 'seeded', pid, n, 'patch.diff')
         r = subprocess.run(['git', '-C', S + '/repo', 'apply', '--whitespace=nowarn', patch], capture_output=True, text=True)
@@ -30,7 +33,7 @@ try:
             print('%s/%s APPLY-FAILED %s' % (pid, n, r.stderr.strip()[:200]), flush=True)
             missed.append('%s/%s' % (pid, n))
             continue
-        p = subprocess.run(['python3', os.path.join(V, 'checks', pid.lower() + '.py'), 'quick'], stdout=subprocess.PIPE, stderr=subprocess.STDOUT, text=True, env=env)
+        p = subprocess.run(['python3', os.path.join(VS, 'checks', pid.lower() + '.py'), 'quick'], stdout=subprocess.PIPE, stderr=subprocess.STDOUT, text=True, env=env)
         keys = [l.strip()[4:].split(' n=')[0] for l in p.stdout.split('\n') if l.strip().startswith('key=')]
         print('%s/%s exit=%d %s' % (pid, n, p.returncode, keys[:2]), flush=True)
         if p.returncode != 1:
